@@ -414,6 +414,14 @@ pub fn enumerate_specs(init: &Fs, trace: &[Ev], power: bool, v2: bool) -> Vec<Im
 		if e.is_fs() {
 			points.push(i + 1);
 		}
+		// the instant right after an acknowledgement (a commit or a synced flush returned) is a crash
+		// point of its own even when no file-system call separates it from the next one: the files
+		// are those of the previous point, but more is owed to the caller
+		if let Ev::Mark(l) = e {
+			if (l.starts_with("ack") || l.starts_with("synced")) && points.last() != Some(&(i + 1)) {
+				points.push(i + 1);
+			}
+		}
 	}
 	for &pt in &points {
 		specs.push(ImageSpec {
